@@ -88,16 +88,7 @@ def wfTx (tx : Tx) : Bool :=
 /-! ### block -/
 
 /-- `for i < count { GetTransactionByBytes; Deserialize; append }` -/
-def repeatTx (ovh : Nat) : Nat → Bytes → R (List Tx)
-  | 0, bs => R.ok 0 [] bs
-  | n + 1, bs =>
-    let r1 := decodeTxA bs
-    match r1.res with
-    | none => R.fail r1.alloc
-    | some (tx, rest) =>
-      let r2 := repeatTx ovh n rest
-      ⟨r1.alloc + ovh + r2.alloc,
-       match r2.res with | some (txs, rest') => some (tx :: txs, rest') | none => none⟩
+def repeatTx (ovh : Nat) : Nat → Bytes → R (List Tx) := repeatDec decodeTxA ovh
 
 structure Block where
   header : Val
